@@ -16,8 +16,9 @@ Open Scope N_scope.
 Definition nilb {A} (l : list A) : bool := match l with [] => true | _ => false end.
 
 (* ---- 1. inert tokens -------------------------------------------------------------------------------- *)
-(* characters that never occur in text the emitter writes BARE (outside quotes and comments) *)
-Definition hard_chr (c : N) : bool := memb c [c_dq; c_slash; c_colon; c_sp; c_tab; c_nl; c_bt; 126; 124; 38; 35].
+(* characters that never occur in the bare tokens treated by `inert` (outside quotes and comments); `$` only occurs bare
+   in VARIABLE tokens, which are a token class of their own (tok_var) *)
+Definition hard_chr (c : N) : bool := memb c [c_dq; c_slash; c_colon; c_sp; c_tab; c_nl; c_bt; 126; 124; 38; 35; 36].
 
 (* a bare token on which the recogniser's code scanner only steps: no quote, slash, colon, blank, backtick,
    ~ | & #, no "->", '+' only as an exponent sign, and no word "vs" at a token start (after `$` `.` `-` or a word
@@ -39,6 +40,15 @@ Fixpoint inert (s : str) (prev : N) : bool :=
 Definition follow_ok (r : str) : bool :=
   match r with c :: _ => negb (N.eqb c c_gt) && negb (N.eqb c 115) | [] => true end.
 
+(* what may follow a value token: additionally no variable character (it would extend a VARIABLE token) *)
+Definition follow_tok (r : str) : bool :=
+  match r with c :: _ => negb (N.eqb c c_gt) && negb (var_chr c) | [] => true end.
+Lemma follow_tok_ok r : follow_tok r = true -> follow_ok r = true.
+Proof.
+  destruct r as [|c r]; [reflexivity|]. cbn [follow_tok follow_ok]. intro H. apply andb_true_iff in H. destruct H as [H1 H2].
+  rewrite H1. cbn [andb]. destruct (N.eqb_spec c 115) as [->|_]; [discriminate H2|reflexivity].
+Qed.
+
 Lemma last_cons {A} (r : list A) : forall c p, last (c :: r) p = last r c.
 Proof.
   induction r as [|x r IH]; intros c p; [reflexivity|].
@@ -47,7 +57,8 @@ Qed.
 
 Lemma hard_chr_facts c : hard_chr c = false ->
   N.eqb c c_dq = false /\ N.eqb c c_slash = false /\ N.eqb c c_colon = false /\ N.eqb c c_sp = false /\
-  N.eqb c c_tab = false /\ N.eqb c c_nl = false /\ N.eqb c c_bt = false /\ memb c [126; 124; 38; 35] = false.
+  N.eqb c c_tab = false /\ N.eqb c c_nl = false /\ N.eqb c c_bt = false /\ memb c [126; 124; 38; 35] = false /\
+  N.eqb c 36 = false.
 Proof.
   unfold hard_chr, memb. cbn [existsb]. intro H.
   repeat match goal with H : (_ || _) = false |- _ => apply orb_false_iff in H; destruct H end.
@@ -64,8 +75,8 @@ Proof.
   induction s as [|c s IH]; intros prev r Hi Hf; [reflexivity|].
   rewrite last_cons. cbn [app]. cbn [inert] in Hi.
   destruct (hard_chr c) eqn:Hh; [discriminate|].
-  destruct (hard_chr_facts c Hh) as (Hdq & Hsl & Hco & _ & _ & _ & _ & Hops).
-  cbn [scan_code]. rewrite Hdq, Hsl, Hops, Hco. cbn [andb].
+  destruct (hard_chr_facts c Hh) as (Hdq & Hsl & Hco & _ & _ & _ & _ & Hops & Hdol).
+  cbn [scan_code]. cbn [andb]. rewrite Hdq, Hsl, Hdol, Hops, Hco. cbn [andb].
   destruct (N.eqb c c_plus) eqn:Hpl.
   - apply andb_true_iff in Hi. destruct Hi as [Hi H3]. apply andb_true_iff in Hi. destruct Hi as [H1 H2].
     rewrite H1. destruct s as [|d s']; [discriminate|]. cbn [app]. rewrite H2. cbn [andb]. exact (IH c r H3 Hf).
@@ -209,7 +220,7 @@ Record tok_ok (T : str) : Prop := mk_tok_ok {
   tk_nl : memb c_nl T = false;
   tk_last : last_is_blank T = false;
   tk_hd : match T with c :: _ => N.eqb c c_sp = false /\ N.eqb c c_bt = false | [] => True end;
-  tk_scan : forall prev r, word_chr prev = false -> follow_ok r = true ->
+  tk_scan : forall prev r, word_chr prev = false -> follow_tok r = true ->
             exists p', scan_code (T ++ r) prev false false = scan_code r p' false false }.
 
 Lemma tok_inert s : s <> [] -> inert s 0 = true -> tok_ok s.
@@ -217,7 +228,7 @@ Proof.
   intros Hne Hi. destruct (inert_line_facts s 0 Hi Hne) as (H1 & H2 & _ & H4 & _ & H6).
   constructor; try assumption.
   - destruct s as [|c s']; [exact I|]. destruct (hard_chr_facts c H6) as (_ & _ & _ & Hs & _ & _ & Hb & _). split; assumption.
-  - intros prev r Hp Hf. exists (last s prev). apply scan_inert; [|exact Hf].
+  - intros prev r Hp Hf. exists (last s prev). apply scan_inert; [|exact (follow_tok_ok r Hf)].
     exact (inert_from0 s prev Hp Hi).
 Qed.
 
@@ -316,7 +327,7 @@ Proof.
 Qed.
 
 Lemma trail_facts t : trail_ok t ->
-  memb c_tab t = false /\ memb c_nl t = false /\ follow_ok t = true /\ (t <> [] -> last_is_blank t = false) /\
+  memb c_tab t = false /\ memb c_nl t = false /\ follow_tok t = true /\ (t <> [] -> last_is_blank t = false) /\
   (forall p, scan_code t p false false = true).
 Proof.
   intros [->|[->|(c & -> & Hne & H)]].
@@ -336,7 +347,7 @@ Lemma key_safe_facts k : key_safe k = true -> k <> [] /\ inert k 0 = true.
 Proof. unfold key_safe. intro H. apply andb_true_iff in H. destruct H as [H1 H2]. split; [destruct k; [discriminate|discriminate]|exact H2]. Qed.
 
 Lemma scan_step_gen c r prev :
-  N.eqb c c_dq = false -> N.eqb c c_slash = false -> memb c [126; 124; 38; 35] = false ->
+  N.eqb c c_dq = false -> N.eqb c c_slash = false -> N.eqb c 36 = false -> memb c [126; 124; 38; 35] = false ->
   N.eqb c c_plus = false -> N.eqb c c_dash = false -> N.eqb c 118 = false ->
   scan_code (c :: r) prev false false =
   (if N.eqb c c_colon && prefixb [c_colon] r && negb (N.eqb prev c_colon)
@@ -344,7 +355,7 @@ Lemma scan_step_gen c r prev :
    else if N.eqb c c_colon && N.eqb prev c_colon
         then (match r with x :: _ => negb (N.eqb x c_sp) | [] => true end) && scan_code r c false false
         else scan_code r c false false).
-Proof. intros H1 H2 H3 H4 H5 H6. cbn [scan_code]. rewrite H1, H2, H3, H4, H5, H6. reflexivity. Qed.
+Proof. intros H1 H2 H0 H3 H4 H5 H6. cbn [scan_code]. cbn [andb]. rewrite H1, H2, H0, H3, H4, H5, H6. reflexivity. Qed.
 
 Lemma scan_assign v prev : N.eqb prev c_sp = false -> N.eqb prev c_colon = false ->
   (match v with x :: _ => N.eqb x c_sp = false | [] => True end) ->
@@ -378,24 +389,81 @@ Proof.
     + destruct T as [|x T']; [congruence|]. cbn [app]. exact (proj1 Hhd).
 Qed.
 
+(* ---- VARIABLE tokens: `$` and a non-empty run of variable characters; an atom for the recogniser as for the lexer -------- *)
+Lemma scan_dollar_gen c r prev :
+  N.eqb c c_dq = false -> N.eqb c c_slash = false -> N.eqb c 36 = true ->
+  (match r with x :: _ => var_chr x | [] => false end) = true ->
+  scan_code (c :: r) prev false false = scan_code r c false true.
+Proof. intros H1 H2 H3 H4. cbn [scan_code]. cbn [andb]. rewrite H1, H2, H3, H4. reflexivity. Qed.
+Lemma scan_var_step x t p : var_chr x = true -> scan_code (x :: t) p false true = scan_code t x false true.
+Proof. intro H. cbn [scan_code]. rewrite H. reflexivity. Qed.
+Lemma scan_var_exit r p : follow_tok r = true -> scan_code r p false true = scan_code r p false false.
+Proof.
+  destruct r as [|c r]; [reflexivity|]. cbn [follow_tok]. intro H. apply andb_true_iff in H. destruct H as [_ H]. apply negb_true_iff in H.
+  cbn [scan_code]. rewrite H. reflexivity.
+Qed.
+Lemma scan_var_run run : forall p r, forallb var_chr run = true -> follow_tok r = true ->
+  scan_code (run ++ r) p false true = scan_code r (last run p) false false.
+Proof.
+  induction run as [|x run IH]; intros p r H Hf; [exact (scan_var_exit r p Hf)|].
+  cbn [forallb] in H. apply andb_true_iff in H. destruct H as [Hx Hr].
+  rewrite last_cons. cbn [app]. rewrite (scan_var_step x _ p Hx). exact (IH x r Hr Hf).
+Qed.
+
+Ltac not_const H c K := destruct (N.eqb_spec c K) as [->|_]; [vm_compute in H; discriminate H|].
+
+Lemma var_chr_facts c : var_chr c = true -> N.eqb c c_tab = false /\ N.eqb c c_nl = false /\ N.eqb c c_sp = false.
+Proof. intro H. repeat split; [not_const H c c_tab|not_const H c c_nl|not_const H c c_sp]; reflexivity. Qed.
+
+Lemma var_run_facts run : forallb var_chr run = true ->
+  memb c_tab run = false /\ memb c_nl run = false /\ (run <> [] -> last_is_blank run = false).
+Proof.
+  intro H. repeat split.
+  - induction run as [|x run IH]; [reflexivity|]. cbn [forallb] in H. apply andb_true_iff in H. destruct H as [Hx Hr].
+    destruct (var_chr_facts x Hx) as (T1 & _ & _). cbn [memb existsb]. rewrite N.eqb_sym, T1. exact (IH Hr).
+  - induction run as [|x run IH]; [reflexivity|]. cbn [forallb] in H. apply andb_true_iff in H. destruct H as [Hx Hr].
+    destruct (var_chr_facts x Hx) as (_ & T2 & _). cbn [memb existsb]. rewrite N.eqb_sym, T2. exact (IH Hr).
+  - intro Hne. unfold last_is_blank. destruct (rev run) as [|c l] eqn:E.
+    + reflexivity.
+    + assert (Hin : In c run) by (apply in_rev; rewrite E; left; reflexivity).
+      rewrite forallb_forall in H. destruct (var_chr_facts c (H c Hin)) as (T1 & _ & T3). rewrite T1, T3. reflexivity.
+Qed.
+
+Lemma tok_var s : match_variable s = true -> tok_ok s.
+Proof.
+  destruct s as [|c [|x run]]; try discriminate. cbn [match_variable]. intro H. apply andb_true_iff in H. destruct H as [Hc Hrun].
+  apply N.eqb_eq in Hc. subst c. change (forallb varp_char (x :: run)) with (forallb var_chr (x :: run)) in Hrun.
+  destruct (var_run_facts (x :: run) Hrun) as (R1 & R2 & R3).
+  pose proof Hrun as Hx. cbn [forallb] in Hx. apply andb_true_iff in Hx. destruct Hx as [Hx _].
+  constructor.
+  - discriminate.
+  - change (c_dollar :: x :: run) with ([c_dollar] ++ x :: run). rewrite memb_app, R1. reflexivity.
+  - change (c_dollar :: x :: run) with ([c_dollar] ++ x :: run). rewrite memb_app, R2. reflexivity.
+  - change (c_dollar :: x :: run) with ([c_dollar] ++ x :: run). rewrite last_is_blank_app by discriminate. apply R3. discriminate.
+  - split; reflexivity.
+  - intros prev r _ Hf. exists (last (x :: run) c_dollar). cbn [app].
+    rewrite (scan_dollar_gen c_dollar (x :: run ++ r) prev eq_refl eq_refl eq_refl Hx).
+    exact (scan_var_run (x :: run) c_dollar r Hrun Hf).
+Qed.
+
 (* ---- values on one line ------------------------------------------------------------------------------------ *)
 (* numbers: any non-empty inert text (covers -?digits, digits.digits, 1e+20, 1.5e-07, inf, nan);
-   strings: ANY string the emitter quotes, and bare-emitted strings that are inert *)
+   strings: ANY string the emitter quotes, bare-emitted strings that are inert, and VARIABLE tokens $[A-Za-z0-9_:]+ *)
 Definition scalar_safe (v : value) : bool :=
   match v with
   | VNull | VBool _ => true
   | VNum _ c => negb (nilb c) && inert c 0
-  | VStr s => needs_quotes s || inert s 0
+  | VStr s => needs_quotes s || inert s 0 || match_variable s
   | _ => false
   end.
 
 Lemma needs_quotes_nil : needs_quotes [] = true.
 Proof. reflexivity. Qed.
 
-Lemma tok_str_bare s : needs_quotes s = false -> needs_quotes s || inert s 0 = true -> tok_ok s.
+Lemma tok_str_bare s : needs_quotes s = false -> inert s 0 || match_variable s = true -> tok_ok s.
 Proof.
-  intros Hq H. rewrite Hq in H. cbn [orb] in H. apply tok_inert; [|exact H].
-  intros ->. rewrite needs_quotes_nil in Hq. discriminate.
+  intros Hq H. destruct (inert s 0) eqn:Hi; [|exact (tok_var s H)].
+  apply tok_inert; [|exact Hi]. intros ->. rewrite needs_quotes_nil in Hq. discriminate.
 Qed.
 
 Lemma tok_scalar_plain v indent : scalar_safe v = true -> tok_ok (emit_value v indent).
@@ -405,7 +473,7 @@ Proof.
   - cbn [emit_value]. destruct b; (apply tok_inert; [discriminate|reflexivity]).
   - cbn [emit_value]. apply andb_true_iff in H. destruct H as [H1 H2]. apply tok_inert; [destruct c; [discriminate|discriminate]|exact H2].
   - cbn [emit_value]. unfold emit_str. rewrite orb_false_r. destruct (needs_quotes s) eqn:Hq; [apply tok_quote|].
-    exact (tok_str_bare s Hq (eq_trans (f_equal (fun b => b || inert s 0) Hq) H)).
+    exact (tok_str_bare s Hq H).
 Qed.
 
 Lemma tok_scalar key v indent : scalar_safe v = true -> tok_ok (force_quote key v (emit_value v indent)).
@@ -416,10 +484,10 @@ Qed.
 
 (* a character the scanner just steps over *)
 Lemma scan_plain c r prev :
-  N.eqb c c_dq = false -> N.eqb c c_slash = false -> memb c [126; 124; 38; 35] = false ->
+  N.eqb c c_dq = false -> N.eqb c c_slash = false -> N.eqb c 36 = false -> memb c [126; 124; 38; 35] = false ->
   N.eqb c c_plus = false -> N.eqb c c_dash = false -> N.eqb c 118 = false -> N.eqb c c_colon = false ->
   scan_code (c :: r) prev false false = scan_code r c false false.
-Proof. intros H1 H2 H3 H4 H5 H6 H7. rewrite scan_step_gen by assumption. rewrite H7. reflexivity. Qed.
+Proof. intros H1 H2 H0 H3 H4 H5 H6 H7. rewrite scan_step_gen by assumption. rewrite H7. reflexivity. Qed.
 
 Lemma memb_join c sep parts : N.eqb c sep = false -> Forall (fun p => memb c p = false) parts ->
   memb c (join [sep] parts) = false.
@@ -1182,14 +1250,13 @@ Qed.
 Definition ident_word (k : str) : bool :=
   match k with x :: t => (is_alpha x || N.eqb x c_us) && forallb word_chr t | [] => false end.
 
-Ltac not_const H c K := destruct (N.eqb_spec c K) as [->|_]; [vm_compute in H; discriminate H|].
 
 Lemma word_facts c : word_chr c = true -> hard_chr c = false /\ N.eqb c c_plus = false /\ N.eqb c c_dash = false.
 Proof.
   intro H. repeat split.
   - unfold hard_chr, memb. cbn [existsb].
     not_const H c c_dq. not_const H c c_slash. not_const H c c_colon. not_const H c c_sp. not_const H c c_tab.
-    not_const H c c_nl. not_const H c c_bt. not_const H c 126. not_const H c 124. not_const H c 38. not_const H c 35. reflexivity.
+    not_const H c c_nl. not_const H c c_bt. not_const H c 126. not_const H c 124. not_const H c 38. not_const H c 35. not_const H c 36. reflexivity.
   - not_const H c c_plus. reflexivity.
   - not_const H c c_dash. reflexivity.
 Qed.
@@ -1251,13 +1318,16 @@ Proof.
     - exfalso. apply N.eqb_eq in E1, E2. subst. vm_compute in Hq. discriminate Hq.
     - cbn [forallb] in Ht. apply andb_true_iff in Ht. destruct Ht as [_ Ht]. apply andb_true_iff in Ht. destruct Ht as [Hz _].
       rewrite Hz. cbn [negb]. rewrite andb_false_r. reflexivity. }
-  rewrite Hc. apply word_inert; assumption.
+  rewrite Hc. rewrite (word_inert t Ht x Hx). reflexivity.
 Qed.
+(* ... and every VARIABLE token $[A-Za-z0-9_:]+ (written bare; may contain `vs`, `:` and `::`) *)
+Lemma variable_str_safe s : match_variable s = true -> scalar_safe (VStr s) = true.
+Proof. intro H. cbn [scalar_safe]. rewrite H. rewrite !orb_true_r. reflexivity. Qed.
 
 (* ---- 6. theorems ------------------------------------------------------------------------------------------------------------ *)
 (* the decidable class: name an identifier word other than END; sentinel without newline; keys / block heads /
    section heads inert non-empty tokens (contains every identifier word but "vs": ident_key_safe); numbers inert
-   tokens (contains all digit strings: digits_num_safe); strings ANY quoted string or inert bare string; lists of
+   tokens (contains all digit strings: digits_num_safe); strings ANY quoted string, inert bare string or VARIABLE token; lists of
    such values, nested to any depth, in both layouts; comments (possibly empty) TAB-free, not ending in a blank; zones with a backtick fence,
    tidy tag and no content line that is the closing fence; META fields/one nested level of such values *)
 Definition strict_safe_doc (d : doc) : bool := strict_safe_gen d.
@@ -1372,13 +1442,28 @@ Example strict_emit_vs_inside_token :
   strict_profile (emit sp_ascii (doc1 DOC (NAssign K (VList [VMap [(lit "RISKS", VStr (lit "$vs"))]]) [] None))) = true.
 Proof. repeat split; vm_compute; reflexivity. Qed.
 
-(* residual imprecision of the recogniser (NOT a defect of the code): a variable may contain ':' ($a:vs is one VARIABLE
-   token, \$[A-Za-z0-9_:]+), and after ':' the recogniser still reads a word `vs` -- it cannot simply exempt ':' because
-   in `K::vs` the `vs` does start a token.  Such strings are outside the class (':' is not inert). *)
-Lemma strict_emit_var_colon_vs_rejected :
-  needs_quotes (lit "$a:vs") = false /\ scalar_safe (VStr (lit "$a:vs")) = false /\
-  strict_profile (emit sp_ascii (doc1 DOC (NAssign K (VStr (lit "$a:vs")) [] None))) = false.
+(* VARIABLE tokens are atoms (lexer: \$[A-Za-z0-9_:]+): `vs`, `:` and `::` inside them are not inspected.  They are
+   written bare, are in the class (variable_str_safe), and are accepted in assignment, list (inline and multi-line,
+   with a trailing comment) and inline-map positions *)
+Definition ex_variables : list str := [lit "$a:vs"; lit "$KEY::value"; lit "$HOME:"; lit "$x:y:"; lit "$vs"].
+Example strict_emit_variable_tokens :
+  forallb (fun s => negb (needs_quotes s) && match_variable s && scalar_safe (VStr s) &&
+                    strict_safe_doc (doc1 DOC (NAssign K (VStr s) [] None)) &&
+                    strict_profile (emit sp_ascii (doc1 DOC (NAssign K (VStr s) [] None)))) ex_variables = true /\
+  (let d := doc1 DOC (NAssign K (VList (map VStr (firstn 2 ex_variables))) [] None) in
+   strict_safe_doc d = true /\ strict_profile (emit sp_ascii d) = true) /\
+  (let d := doc1 DOC (NAssign K (VList (map VStr ex_variables)) [] (Some (lit "after"))) in
+   strict_safe_doc d = true /\ strict_profile (emit sp_ascii d) = true) /\
+  strict_profile (emit sp_ascii (doc1 DOC (NAssign K (VList [VMap (map (fun s => (lit "RISKS", VStr s)) ex_variables)]) [] None))) = true.
 Proof. repeat split; vm_compute; reflexivity. Qed.
+(* ... while outside a VARIABLE token nothing is relaxed: `K::vs`, a blank next to `::`, a `vs` or `->` after the end of a
+   variable, and a lone `$` are still rejected; `K::x` is the accepted control *)
+Definition one_line (l : str) : str := lit "===DOC===" ++ [c_nl] ++ l ++ [c_nl] ++ lit "===END===" ++ [c_nl].
+Example strict_profile_still_rejects :
+  map (fun l => strict_profile (one_line l))
+      [lit "K::vs"; lit "K:: x"; lit "K ::x"; lit "K::$a vs b"; lit "K::$ vs"; lit "K::[$a,vs]"; lit "K::$a->b"; lit "K::x"]
+  = [false; false; false; false; false; false; false; true].
+Proof. vm_compute. reflexivity. Qed.
 
 (* zones: any content under a ``` fence *)
 Definition strict_emit_zones_full : Prop :=
